@@ -170,10 +170,11 @@ public:
     //! operator += to combine two Aggregate<>
     Aggregate& operator+=(const Aggregate& a) noexcept
     {
+        // combine_variance() needs the mean before the merge
+        nvar_ = combine_variance(a);
         mean_ = combine_means(a);
         min_ = std::min(min_, a.min_);
         max_ = std::max(max_, a.max_);
-        nvar_ = combine_variance(a);
         count_ += a.count_;
         return *this;
     }
